@@ -578,5 +578,9 @@ def reduce_sum(itp, q, n, node, what='sum'):
             return None
         if n is not None and aff(n).is_const() and len(vals) == int(aff(n).c) and vals:
             return vals[0]
+        if n is not None and not aff(n).is_const() and vals:
+            # a buffer still being defined by the enclosing recursion (only the entries of the peeled iterations are known, and
+            # they agree): optimistic placeholder like q_index; re-checked in the later passes once the buffer is solved
+            return 'any'
         return None
     return None
